@@ -49,7 +49,7 @@ var externs = map[string]struct {
 var leanKeywords = map[string]bool{}
 
 func init() {
-	for _, k := range strings.Fields(`end at from in do then fun let have show open section namespace instance class structure theorem def match with if else return mut for where deriving extends prefix private protected variable universe import export abbrev axiom example inductive macro syntax notation infix infixl infixr postfix set_option attribute local scoped partial unsafe noncomputable mutual using by calc at this Type Prop Sort`) {
+	for _, k := range strings.Fields(`end at from in do then fun let have show open section namespace instance class structure theorem def match with if else return mut for where deriving extends prefix private protected variable universe import export abbrev axiom example inductive macro syntax notation infix infixl infixr postfix set_option attribute local scoped partial unsafe noncomputable mutual using by calc at this Type Prop Sort exists`) {
 		leanKeywords[k] = true
 	}
 }
@@ -85,6 +85,10 @@ type structInfo struct {
 	fields   []string // lean field decl lines
 	omitted  []string
 	deps     []string // lean names of structs used
+	// fields whose type is an anonymous struct (e.g. Network.HardforkFoundation):
+	// omitted by default, modelled on demand (enableAnonField) when a translated
+	// function reads them, so that the output for functions that do not is unchanged
+	anon map[string]*types.Struct
 }
 
 type varInfo struct {
@@ -105,6 +109,7 @@ type tcode struct {
 	vars    map[string]*varInfo
 	vorder  []string
 	work    []string
+	anonOf  map[*types.Struct]*structInfo // modelled anonymous struct types
 }
 
 func newTcode(L *loader) *tcode {
@@ -301,12 +306,66 @@ func (t *tcode) ensureStruct(n *types.Named) *structInfo {
 		z, ok2 := t.zero(f.Type())
 		if !ok || !ok2 {
 			si.omitted = append(si.omitted, f.Name())
+			if as, isAnon := f.Type().(*types.Struct); isAnon {
+				if si.anon == nil {
+					si.anon = map[string]*types.Struct{}
+				}
+				si.anon[f.Name()] = as
+			}
 			continue
 		}
 		si.fields = append(si.fields, fmt.Sprintf("  %s : %s := %s", sanitize(f.Name()), lt, z))
 	}
 	t.sorder = append(t.sorder, name)
 	return si
+}
+
+// enableAnonField models the anonymous-struct field fname of si as a synthetic
+// structure `<parent>_<field>` (emitted before the parent). Returns the synthetic
+// struct, or nil when fname is not such a field.
+func (t *tcode) enableAnonField(si *structInfo, fname string) *structInfo {
+	st, ok := si.anon[fname]
+	if !ok {
+		return nil
+	}
+	name := si.leanName + "_" + fname
+	if sub, done := t.structs[name]; done {
+		return sub
+	}
+	sub := &structInfo{leanName: name, pkg: si.pkg}
+	t.structs[name] = sub
+	for i := 0; i < st.NumFields(); i++ {
+		f := st.Field(i)
+		lt, ok := t.leanType(f.Type())
+		z, ok2 := t.zero(f.Type())
+		if !ok || !ok2 {
+			sub.omitted = append(sub.omitted, f.Name())
+			continue
+		}
+		sub.fields = append(sub.fields, fmt.Sprintf("  %s : %s := %s", sanitize(f.Name()), lt, z))
+	}
+	// emit before the parent
+	idx := len(t.sorder)
+	for i, n := range t.sorder {
+		if n == si.leanName {
+			idx = i
+			break
+		}
+	}
+	t.sorder = append(t.sorder[:idx], append([]string{name}, t.sorder[idx:]...)...)
+	si.fields = append(si.fields, fmt.Sprintf("  %s : %s := ({} : %s)", sanitize(fname), name, name))
+	var om []string
+	for _, o := range si.omitted {
+		if o != fname {
+			om = append(om, o)
+		}
+	}
+	si.omitted = om
+	if t.anonOf == nil {
+		t.anonOf = map[*types.Struct]*structInfo{}
+	}
+	t.anonOf[st] = sub
+	return sub
 }
 
 func (si *structInfo) hasField(name string) bool {
@@ -692,10 +751,21 @@ func (e *emitter) expr(x ast.Expr, h *hoist) string {
 				if _, ok := n.Underlying().(*types.Struct); ok && n.Obj().Pkg() != nil && pkgAlias[n.Obj().Pkg().Path()] != "" {
 					si := e.t.ensureStruct(n)
 					if !si.hasField(x.Sel.Name) {
-						e.t.fail(x, "field %s.%s has an unmodelled type", n.Obj().Name(), x.Sel.Name)
+						if sub := e.t.enableAnonField(si, x.Sel.Name); sub != nil {
+							e.deps[sub.leanName] = true
+						} else {
+							e.t.fail(x, "field %s.%s has an unmodelled type", n.Obj().Name(), x.Sel.Name)
+						}
 					}
 					e.deps[si.leanName] = true
 				}
+			} else if as, ok := recvT.(*types.Struct); ok {
+				// field of a modelled anonymous struct (its parent selector was translated just above)
+				sub := e.t.anonOf[as]
+				if sub == nil || !sub.hasField(x.Sel.Name) {
+					e.t.fail(x, "field %s of an anonymous struct has an unmodelled type", x.Sel.Name)
+				}
+				e.deps[sub.leanName] = true
 			}
 			return base + "." + sanitize(x.Sel.Name)
 		}
@@ -786,7 +856,23 @@ func (e *emitter) binary(at ast.Node, op token.Token, X, Y ast.Expr, T types.Typ
 		var h2 hoist
 		r := e.expr(Y, &h2)
 		if len(h2.lines) > 0 {
-			e.t.fail(at, "panicking call on the right of a short-circuit operator")
+			// The right operand can panic (e.g. `%` by a variable) and Go evaluates it only
+			// when the left operand does not decide: bind the whole operator to a temporary
+			// whose right branch runs the hoisted calls. Every hoisted line is `let v ← call`.
+			body := "pure " + r
+			for i := len(h2.lines) - 1; i >= 0; i-- {
+				ln := h2.lines[i]
+				const pre = "let "
+				k := strings.Index(ln, " ← ")
+				if !strings.HasPrefix(ln, pre) || k < 0 {
+					e.t.fail(at, "panicking call on the right of a short-circuit operator")
+				}
+				body = "(" + ln[k+len(" ← "):] + ") >>= fun " + ln[len(pre):k] + " => " + body
+			}
+			if op == token.LAND {
+				return e.hoistCall(h, fmt.Sprintf("(if %s then (%s) else pure false)", l, body), true)
+			}
+			return e.hoistCall(h, fmt.Sprintf("(if %s then pure true else (%s))", l, body), true)
 		}
 		if op == token.LAND {
 			return "(" + l + " && " + r + ")"
